@@ -12,7 +12,8 @@ EXPLANATION = (
     "decoded frame control returns to decode before the next transport read (all complete frames are drained); (R01.5) the "
     "PSH arm forwards exactly frame.data; (R01.6) StreamReader::read keeps the unread remainder and drains exactly what it "
     "copied; (R01.7) a 0-byte read can only mean EOF (empty chunks are skipped); (R01.8) one forwarder owns the outbound "
-    "queue and passes (id, chunk) unchanged to write_data_frame. Not decided: byte-for-byte equality of payloads."
+    "queue and passes (id, chunk) unchanged to write_data_frame; (R01.9) every write to the transport or to a proxied socket uses a "
+    "whole-buffer API (write_all), never a single-shot partial write. Not decided: byte-for-byte equality of payloads."
 )
 RULE_TEXT = "one obligation per cast, per Frame::data call, per buffer mutator, per loop edge, per copy/drain pair; non-trivial = needed a range, dominance, cycle or origin query"
 
@@ -273,6 +274,28 @@ def r8_single_forwarder(ctx):
         ctx.ob("R01.8", "process_stream_data:tuple-forwarded", ok, wd[0].site, "write_data_frame(item.0, item.1) of the tuple received from the outbound queue" if ok else "write_data_frame gets (%s, %s)" % (f1[:80], f2[:80]))
 
 
+PARTIAL_WRITES = ("AsyncWriteExt::write", "AsyncWriteExt::write_buf", "AsyncWriteExt::write_vectored", "AsyncWrite::poll_write", "AsyncWriteExt::write_all_buf_partial",
+                  "io::Write::write", "io::Write::write_vectored")
+
+
+def r9_complete_writes(ctx):
+    """bytes handed to a socket / the transport are written completely: only whole-buffer write APIs are used"""
+    n_all = 0
+    for key, body in ctx.P.bodies.items():
+        if key.startswith(("util::cert", "util::tls")):
+            continue
+        for c in body.calls():
+            nm = c.norm or ""
+            if nm.endswith("AsyncWriteExt::write_all") or nm.endswith("AsyncWriteExt::write_all_buf"):
+                n_all += 1
+            elif nm.endswith(PARTIAL_WRITES):
+                ctx.ob("R01.9", "%s|%s" % (key.split("::{closure")[0], nm.split("::")[-1]), False, c.site,
+                       "`%s` performs one write and may accept only part of the buffer; the remainder is silently dropped under back-pressure, so the peer's decoder swallows the following frame headers as payload "
+                       "(use write_all)" % nm.split("::")[-1])
+    ctx.ob("R01.9", "whole-buffer-writes-only", True, "", "%d write_all call sites, no partial-write API in the data path" % n_all, nontrivial=False)
+    ctx.floor("R01.9", "write_all call sites (matcher self-check)", n_all, 15)
+
+
 def run(ctx):
     r1_encode_cast(ctx)
     r2_chunking(ctx)
@@ -280,3 +303,4 @@ def run(ctx):
     r5_push_payload(ctx)
     r6_r7_reader(ctx)
     r8_single_forwarder(ctx)
+    r9_complete_writes(ctx)
